@@ -41,12 +41,13 @@ def lanes(quick_scale=1.0, thorough_scale=30.0, miri=None, asan=False, memcheck=
     return dict(quick=q, thorough=t)
 
 
+MIRI_W = [0, 1, 7, 63, 64, 65, 128, 129, 256, 521]
+
 PROPS = {
     "C01": dict(
         bin="c01",
-        lanes=lanes(quick_scale=1.0, thorough_scale=40.0,
-                    miri=dict(light=0.004, scale=0.002, widths=[0, 1, 7, 63, 64, 65, 128, 129, 256, 521]),
-                    miri_quick=False),
+        lanes=lanes(quick_scale=4.0, thorough_scale=60.0,
+                    miri=dict(light=0.004, scale=0.002, widths=MIRI_W), miri_quick=False),
         primary_lane="checked",
         rule="Cases are (operation group, width, operand tuple): a fixed directed corpus (all pairs at BITS<=4, "
              "boundary values against complements/negations/neighbours, carry and borrow chains over every limb range) "
@@ -55,18 +56,144 @@ PROPS = {
              "Non-trivial: not all operands zero (sum: >= 2 non-zero terms).",
         assumptions=COMMON_ASSUME,
     ),
+    "C02": dict(
+        bin="c02",
+        lanes=lanes(quick_scale=3.0, thorough_scale=40.0,
+                    miri=dict(light=0.003, scale=0.002, widths=MIRI_W), miri_quick=False),
+        primary_lane="checked",
+        hooks_expected=["ADDMUL_TRIM_A_LO", "ADDMUL_TRIM_A_HI", "ADDMUL_TRIM_B_LO", "ADDMUL_TRIM_B_HI",
+                        "ADDMUL_RET_EMPTY_OPERAND", "ADDMUL_RET_EMPTY_LHS", "ADDMUL_SWAP", "ADDMUL_FULL_ROW",
+                        "ADDMUL_ROW_CARRY_OUT", "ADDMUL_SHORT_WINDOW", "ADDMUL_LHS_EXHAUSTED"],
+        rule="Cases: mul (all variants + six operator shapes), inv_ring, widening product over a 10x10 (BITS, BITS_RHS) grid, "
+             "Product; operands: all pairs at BITS<=4, boundary pairs, products at 2^BITS+-small (a = ceil(2^BITS/b) and "
+             "neighbours), sparse operands x*2^(64i) * y*2^(64j) for all limb offsets (addmul trimming / short-window arms), "
+             "hostile random. Non-trivial: both operands non-zero (inv_ring: value >= 2).",
+        assumptions=COMMON_ASSUME,
+    ),
+    "C03": dict(
+        bin="c03",
+        lanes=lanes(quick_scale=2.0, thorough_scale=30.0,
+                    miri=dict(light=0.003, scale=0.004, widths=MIRI_W), asan=True),
+        primary_lane="checked",
+        hooks_expected=["DIV_NUM_ZERO", "DIV_NUM_SHORT", "DIV_1X1", "DIV_NX1", "DIV_NX2", "DIV_NXM", "KNUTH_FORCED",
+                        "KNUTH_QZERO", "KNUTH_ADDBACK_NOSHIFT", "KNUTH_ADDBACK_SHIFT", "KNUTH_STEP_NOSHIFT",
+                        "KNUTH_STEP_SHIFT", "KNUTH_QHIGH_NONZERO", "NX1_NORMALIZED", "NX1_SHIFT", "NX2_NORMALIZED",
+                        "NX2_SHIFT", "D2X1_ADJ1", "D2X1_ADJ2", "D3X2_ADJ1", "D3X2_ADJ2", "RECIP2_C1", "RECIP2_C2",
+                        "RECIP2_C3", "RECIP2_C4"],
+        rule="One case = (n, d) at a width; checks div_rem, / % in six shapes each, wrapping_/checked_div/rem, div_ceil, "
+             "(checked_)next_multiple_of, zero-divisor behaviour. Operands: all pairs at BITS<=4, boundary grid, and for every "
+             "divisor limb length x every top-limb bit length 1..64 the recipes n = Q*d - delta (add-back), n = d*B^k - delta "
+             "(forced digit), n = Q*d + r with extreme r, equal leading limbs, d*2^k+-1, hostile. Non-trivial: d >= 2 and n >= d.",
+        assumptions=COMMON_ASSUME,
+    ),
+    "C05": dict(
+        bin="c05",
+        lanes=lanes(quick_scale=1.0, thorough_scale=10.0,
+                    miri=dict(light=0.0008, scale=0.003, widths=MIRI_W), miri_quick=False),
+        primary_lane="checked",
+        rule="Cases: shl / shr (overflowing, checked, saturating, wrapping, arithmetic_shr, and << >> <<= >>= for usize,u8,u16,"
+             "u32,u64,isize,i8,i16,i32,i64 by value and by reference whenever the amount fits the type), rotations, and "
+             "Uint-typed amounts of any magnitude. Grid: single-bit / all-ones / alphabet values x every amount in "
+             "[0, BITS+64*LIMBS+1] at widths <= 257 (all bit positions at BITS<=64; all positions at <= 257 in the thorough "
+             "tier), boundary amounts beyond, huge amounts up to usize::MAX, Uint amounts 2^64, 2^64+3, MAX. "
+             "Non-trivial: value != 0 and amount != 0.",
+        assumptions=COMMON_ASSUME + ["negative amounts of the signed operator overloads are outside the property and never generated"],
+    ),
+    "C06": dict(
+        bin="c06",
+        lanes=lanes(quick_scale=3.0, thorough_scale=40.0,
+                    miri=dict(light=0.002, scale=0.003, widths=MIRI_W)),
+        primary_lane="checked",
+        rule="Cases: logic (! & | ^ in all shapes), count (leading/trailing zeros/ones, count_ones/zeros, bit_len, byte_len, "
+             "reverse_bits, is_power_of_two, (checked_)next_power_of_two, most_significant_bits), index (bit, set_bit, byte, "
+             "checked_byte for every index in [0, BITS+64] and huge indices). Values: single bits and single zeros at every "
+             "position, runs of ones starting/ending at limb boundaries, boundary and hostile values. "
+             "Non-trivial: value not in {0, MAX} or an index-addressed operation.",
+        assumptions=COMMON_ASSUME,
+    ),
+    "C07": dict(
+        bin="c07",
+        lanes=lanes(quick_scale=2.0, thorough_scale=30.0,
+                    miri=dict(light=0.002, scale=0.002, widths=MIRI_W), miri_quick=False),
+        primary_lane="checked",
+        rule="Cases: from.<T> for bool,u8..u128,usize,i8..i128,isize (try_from incl. error kind, bits field and wrapped payload; "
+             "from; wrapping_from; saturating_from), to_prims (try_from by ref and value, to, wrapping_to, saturating_to for all "
+             "13 targets incl. error payloads), uint_uint over a 14x14 width grid, limbs_slice (all *_from_limbs_slice and "
+             "from_limbs for slice lengths 0..LIMBS+2). Sources: type MIN/MAX, +-2^k, +-(2^k+-1) around BITS and the type "
+             "width, all 256 values of u8/i8, structured u128. The ValueNegative payload is only checked when BITS <= source "
+             "width, as the property states. Non-trivial: source value not in {0, 1}.",
+        assumptions=COMMON_ASSUME,
+    ),
+    "C14": dict(
+        bin="c14",
+        lanes=lanes(quick_scale=4.0, thorough_scale=60.0,
+                    miri=dict(light=0.01, scale=0.0015), asan=True),
+        primary_lane="checked",
+        hooks_expected=["KNUTHN_FORCED", "KNUTHN_ADDBACK", "KNUTHN_STEP", "KNUTH_FORCED", "KNUTH_QZERO",
+                        "KNUTH_ADDBACK_NOSHIFT", "KNUTH_ADDBACK_SHIFT", "KNUTH_QHIGH_NONZERO", "NX1_NORMALIZED", "NX1_SHIFT",
+                        "NX2_NORMALIZED", "NX2_SHIFT", "D2X1_ADJ1", "D2X1_ADJ2", "D3X2_ADJ1", "D3X2_ADJ2", "RECIP2_C1",
+                        "RECIP2_C2", "RECIP2_C3", "RECIP2_C4", "DIV_NUM_ZERO", "DIV_NUM_SHORT", "DIV_1X1", "DIV_NX1",
+                        "DIV_NX2", "DIV_NXM"],
+        rule="Cases at slice level: algorithms::div for every (numerator length, divisor length) in 1..=12 x 1..=12 with zero "
+             "padding, div_nxm, div_nxm_normalized (numerator's top limbs below the divisor, incl. equal lengths), div_nx1/nx2 "
+             "and their normalized forms, div_2x1 / div_3x2 (mg10 and ref twin of 2x1), reciprocal / reciprocal_2 (mg10, ref) "
+             "for all 256 table rows; each strictly inside its documented + debug-asserted preconditions. div_3x2_ref is "
+             "documented in its source as off by one and is only counted. Non-trivial: divisor or numerator >= 2 limbs "
+             "(always true for the word-level kernels).",
+        assumptions=COMMON_ASSUME + ["kernel preconditions are those documented in the source plus the kernel's own debug_assert!s; div_nxm_normalized additionally needs the numerator's top divisor.len() limbs below the divisor (otherwise the quotient has no representation)"],
+    ),
+    "C15": dict(
+        bin="c15",
+        lanes=lanes(quick_scale=10.0, thorough_scale=150.0,
+                    miri=dict(light=0.01, scale=0.004)),
+        primary_lane="checked",
+        hooks_expected=["ADDMUL_TRIM_A_LO", "ADDMUL_TRIM_A_HI", "ADDMUL_TRIM_B_LO", "ADDMUL_TRIM_B_HI",
+                        "ADDMUL_RET_EMPTY_OPERAND", "ADDMUL_RET_EMPTY_LHS", "ADDMUL_SWAP", "ADDMUL_FULL_ROW",
+                        "ADDMUL_ROW_CARRY_OUT", "ADDMUL_SHORT_WINDOW", "ADDMUL_LHS_EXHAUSTED"],
+        rule="Cases at slice level: addmul for every (accumulator, a, b) length combination in 0..=10^3, addmul_n, mul_nx1, "
+             "addmul_nx1, submul_nx1, add_nx1, adc_n, sbb_n (lengths 0..=12), adc, sbb, carrying_add, borrowing_sub, "
+             "shift_left/right_small for every amount 0..64, cmp on equal-length slices. Carry/borrow words are judged by "
+             "conservation (result + word*2^(64N) equals the exact value). Non-trivial: at least two non-zero limbs overall.",
+        assumptions=COMMON_ASSUME + ["length preconditions (`assume!`) are respected: violating them is UB in release builds and outside the property"],
+    ),
 }
 
 TRUST = ("Trusted base: rustc/cargo, num-bigint as arithmetic reference, the hand-written oracle in the workload binary, "
          "the coverage hooks being add-only. Finite width list and sampled operands; sanitizer lanes see only reached code.")
 
+
+LEVEL = {
+    "C01": "add/sub/neg/abs_diff/Sum in every variant and operator shape vs BigUint at 32 widths; all pairs enumerated at BITS<=4",
+    "C02": "mul variants, widening grid, inv_ring, Product vs BigUint with the addmul coverage hooks showing every trimming / short-window / carry arm was executed through the Uint API",
+    "C03": "div_rem and all derived forms vs BigUint on constructive recipes for the add-back, forced-digit and reciprocal-correction paths; hook counters in the evidence state how many cases reached each path",
+    "C05": "shift values and lost-bit flags, rotations, arithmetic shift, 10 integer-typed operator overloads and Uint amounts vs BigUint; every amount in [0, BITS+64*LIMBS+1] at widths <= 257",
+    "C06": "bitwise logic, bit/byte access and counting vs the binary expansion; every index in [0, BITS+64]; single bits / single zeros at every position",
+    "C07": "13 primitive sources and targets x 30 widths, 14x14 Uint-to-Uint grid, limb slices of every length 0..LIMBS+2, incl. error kinds and payloads, vs exact integer arithmetic",
+    "C14": "every slice-level division kernel vs BigUint inside its documented preconditions, all 256 reciprocal table rows, all (numerator, divisor) length pairs 1..=12",
+    "C15": "every slice-level arithmetic kernel vs BigUint with conservation oracles for carry/borrow words, all length combinations 0..=10 for addmul",
+}
+SANI = {
+    "C01": "Miri (dev + release) in thorough",
+    "C02": "Miri (dev + release) in thorough",
+    "C03": "Miri shard in quick; Miri dev+release and AddressSanitizer in thorough",
+    "C05": "Miri in thorough",
+    "C06": "Miri shard in quick (raw byte view behind byte()); Miri dev+release in thorough",
+    "C07": "Miri in thorough",
+    "C14": "Miri shard in quick (unchecked indexing in div_nx1/div_nx2 and the reciprocal table); Miri dev+release and AddressSanitizer in thorough",
+    "C15": "Miri shard in quick; Miri dev+release in thorough (`assume!` = unreachable_unchecked in release)",
+}
 MANIFEST_TEXT = {
-    "C01": dict(
-        level_text="Reference-model monitoring: ~10^6 (quick) to ~5*10^7 (thorough) monitored operand tuples at 32 widths, every variant and operator shape compared with BigUint, canonical-form invariant on every result; all pairs enumerated at BITS<=4. Exploration is the right level: the quantifier is over inputs and widths, which a monitor can only sample.",
-        design_ref="DESIGN.md section 4 (C01)",
+    pid: dict(
+        level_text="Reference-model monitoring of the real code: " + LEVEL[pid] + ". Quick ~10^6, thorough ~10^7-10^8 monitored cases; "
+                   "canonical-form invariant on every produced Uint; debug-assertion and release builds both run. Exploration is the "
+                   "honest level: the quantifier ranges over inputs and widths, which a monitor samples (enumerated sub-spaces are listed "
+                   "in the evidence).",
+        design_ref=f"DESIGN.md section 4 ({pid})",
         level_note=TRUST,
-        technique="runtime reference-model monitor (BigUint oracle) over hostile + directed operand workloads; debug-assert and release lanes, Miri lane in thorough",
-    ),
+        technique="runtime reference-model monitor (independent BigUint oracle) over directed + hostile workloads, coverage hooks, "
+                  "debug-assert and release lanes; sanitizer lanes: " + SANI[pid],
+    )
+    for pid in PROPS
 }
 
 _PENDING = "check under construction in this build round; will be claimed once its monitor is validated on the unchanged tree"
